@@ -134,10 +134,10 @@ ms.call_closure = call_closure
 def _(M, a, c): return Native('Vec', b=[])
 @model_re(r'^<Vec<.*> as Index<usize>>::index$|^<Vec<.*> as IndexMut<usize>>::index_mut$')
 def _(M, a, c):
-    v = V(a[0]); i = a[1]
-    assert not i.sym()
-    if i.v >= len(v.d['b']): raise Panic("index out of bounds")
-    return Ref(v.d['b'], i.v)
+    v = V(a[0]); i = a[1]; n = len(v.d['b'])
+    k = concretize(M, i, n - 1) if n > 0 else None
+    if k is None: raise Panic("index out of bounds: the len is %d" % n)
+    return Ref(v.d['b'], k)
 @model_re(r'^<SourcedValue as Clone>::clone$|^<Value as Clone>::clone$|^<ast::\w+ as Clone>::clone$')
 def _(M, a, c):
     key = M.lookup(norm_name(c))
@@ -214,11 +214,39 @@ class Exit(Exception):
     def __init__(self, code): self.code = code
 OUT = {'stdout': [], 'stderr': []}
 ENV = {'args': [], 'files': {}}
-def pystr(s): return Native('String', b=[U(8, x) for x in (s.encode() if isinstance(s, str) else s)])
-def tobytes(v):
+class Dec:
+    """element of a rendered string: the decimal rendering of a symbolic integer (opaque; compared term-wise)"""
+    __slots__ = ('t',)
+    def __init__(self, t): self.t = t
+    def sym(self): return True
+    def z(self): raise Unsupported("byte-level inspection of the decimal rendering of a symbolic integer")
+    def __repr__(self): return "Dec(%s)" % (self.t,)
+def elems(x):
+    """python bytes/str -> list of concrete u8 elements"""
+    return [U(8, b) for b in (x.encode() if isinstance(x, str) else x)]
+def pystr(s):
+    return Native('String', b=(elems(s) if isinstance(s, (str, bytes)) else list(s)))
+def toelems(v):
     s = as_slice(v)
     if isinstance(s, Ref): s = as_slice(deref_all(s))
-    return bytes(b.v for b in s.items())
+    return list(s.items())
+def tobytes(v):
+    es = toelems(v)
+    if any(isinstance(e, Dec) or e.sym() for e in es): raise Unsupported("concrete bytes needed (path / key / name) but the string is symbolic")
+    return bytes(b.v for b in es)
+def flat(parts):
+    out = []
+    for p in parts: out.extend(p)
+    return out
+def pieces(els):
+    """element list -> comparison pieces: bytes | ('byte', z3 bv8) | ('dec', z3 bv64)"""
+    out = []
+    for e in els:
+        if isinstance(e, Dec): out.append(('dec', e.t))
+        elif e.sym(): out.append(('byte', e.v))
+        elif out and isinstance(out[-1], bytes): out[-1] += bytes([e.v])
+        else: out.append(bytes([e.v]))
+    return out
 
 VARIANT_FIELDS = {}   # enum -> variant -> [(field, boxed_source)]
 def init(M):
@@ -316,38 +344,45 @@ def _(M, a, c): return Native('Arguments', tmpl=a[0], args=a[1])
 @model_re(r'^Arguments::from_str$')
 def _(M, a, c): return Native('Arguments', lit=a[0])
 def render_args(M, ar):
-    if 'lit' in ar.d: return tobytes(ar.d['lit'])
+    if 'lit' in ar.d: return toelems(ar.d['lit'])
     t = deref_all(ar.d['tmpl'])
     tb = bytes(b.v for b in (t.fields if isinstance(t, Agg) else t.items()))
     args = deref_all(ar.d['args']); args = args.fields if isinstance(args, Agg) else args.items()
-    out = b''; i = 0; nexta = 0
+    out = []; i = 0; nexta = 0
     while i < len(tb):
         b = tb[i]
         if b == 0: break
         if b < 0x80:
-            out += tb[i+1:i+1+b]; i += 1 + b; continue
+            out += elems(tb[i+1:i+1+b]); i += 1 + b; continue
         if b == 0x80:
-            n = tb[i+1] | (tb[i+2] << 8); out += tb[i+3:i+3+n]; i += 3 + n; continue
+            n = tb[i+1] | (tb[i+2] << 8); out += elems(tb[i+3:i+3+n]); i += 3 + n; continue
         if b == 0xC0:
             out += render_one(M, args[nexta]); nexta += 1; i += 1; continue
         raise Unsupported("fmt placeholder with options: %r" % tb[i:i+8])
     return out
+def render_usize_sym(M, v):
+    # a symbolic usize is rendered as the decimal of its value; usize values in this crate come from non-negative i64s or lengths,
+    # so the signed reading is the same number whenever the top bit is clear (checked)
+    if M.branch(v.z() < 0): raise Unsupported("display of a symbolic usize >= 2^63")
+    return [Dec(v.v)]
 def render_one(M, fa):
     ty = fa.d['ty']; v = deref_all(fa.d['v']); kind = fa.d['fk']
     base = ty.lstrip('&')
     if kind == 'display':
-        if base in ('String', 'str', 'Cow<\'_, str>'): return tobytes(v)
+        if base in ('String', 'str', 'Cow<\'_, str>'): return toelems(v)
         if base in INT_TY and base != 'char':
-            if v.sym(): raise Unsupported("display of symbolic int")
-            return str(v.v).encode()
-        if base == 'bool': return b'true' if v else b'false'
-        if base == 'char': return chr(v.v).encode()
+            if v.sym():
+                if v.w != 64: raise Unsupported("display of symbolic int of width %d" % v.w)
+                return [Dec(v.v if v.s else v.v)] if v.s else render_usize_sym(M, v)
+            return elems(str(v.v))
+        if base == 'bool': return elems('true' if M.branch(v) else 'false')
+        if base == 'char': return encode_char(M, v)
         if base in ('eval::error::Error', 'Error'):
             return display_local(M, v, '<Error as std::fmt::Display>::fmt')
-        if base in ('FromUtf8Error',): return b'<FromUtf8Error>'
+        if base in ('FromUtf8Error',): return elems('<FromUtf8Error>')
     else:
         if base == 'Option<String>':
-            return b'None' if v.variant == 0 else b'Some("' + tobytes(v.fields[0]) + b'")'
+            return elems('None') if v.variant == 0 else elems('Some("') + toelems(v.fields[0]) + elems('")')
         if base == 'Token':
             return display_local(M, v, '<Token as std::fmt::Debug>::fmt')
     raise Unsupported("fmt of %s (%s)" % (ty, kind))
@@ -376,9 +411,9 @@ def display_local(M, v, name):
     mp.ensure_parsed(body)
     fr = ms.Frame(body); fr.locals[1] = Ref([v], 0); fr.locals[2] = Ref([f], 0)
     M.run(fr)
-    return b''.join(f.d['buf'])
+    return flat(f.d['buf'])
 @model_re(r'^Formatter::write_str$')
-def _(M, a, c): V(a[0]).d['buf'].append(tobytes(a[1])); return ok(UNIT)
+def _(M, a, c): V(a[0]).d['buf'].append(toelems(a[1])); return ok(UNIT)
 @model_re(r'^Formatter::write_fmt$')
 def _(M, a, c): V(a[0]).d['buf'].append(render_args(M, a[1])); return ok(UNIT)
 @model('format', 'alloc::fmt::format', 'std::fmt::format')
@@ -404,8 +439,11 @@ def _(M, a, c):
     return ok(Native('String', b=bs))
 @model_re(r'^std::slice::<impl \[String\]>::join$')
 def _(M, a, c):
-    parts = [tobytes(x) for x in a[0].items()]; sep = tobytes(a[1])
-    return pystr(sep.join(parts))
+    parts = [toelems(x) for x in a[0].items()]; sep = toelems(a[1]); out = []
+    for i, p in enumerate(parts):
+        if i: out += sep
+        out += p
+    return pystr(out)
 @model_re(r'^<\[String\] as Index<std::ops::Range<usize>>>::index$')
 def _(M, a, c):
     s = a[0]; r = a[1]; return Slice(s.b, s.lo + r.fields[0].v, s.lo + r.fields[1].v)
@@ -418,6 +456,7 @@ def _(M, a, c):
 def _(M, a, c):
     s, pat, to = a; out = []; tob = as_slice(to).items()
     for b in as_slice(s).items():
+        if isinstance(b, Dec): out.append(b); continue      # digits and '-' never match the (non-digit) pattern
         if M.branch(b.z() == pat.v): out.extend(tob)
         else: out.append(b)
     return Native('String', b=out)
@@ -629,7 +668,10 @@ def _(M, a, c):
     LX = find_fn(M, r'^lexer::<impl at src/lexer/mod.rs:\d+:1: \d+:\d+>::next$')
     def next_token():
         r = M.call(LX, [lxref]); return None if r.variant == 0 else r.fields[0]
-    return drive(M, '__parse__%s::' % which, next_token)
+    r = drive(M, '__parse__%s::' % which, next_token)
+    if PARSE_HOOK[0] is not None: PARSE_HOOK[0](M, which, r)
+    return r
+PARSE_HOOK = [None]
 @model('<String as ToString>::to_string')
 def _(M, a, c): return Native('String', b=list(V(a[0]).d['b']))
 @model_re(r'^Option::or_else$')
@@ -637,11 +679,20 @@ def _(M, a, c):
     o, f = a
     if o.variant == 1: return o
     return call_closure(M, f, [], byref=False)
+RANGE_MAX = 16
 _old_iter_items = iter_items
 def iter_items(M, it):
     if isinstance(it, Agg) and it.ty == 'Range':
         lo, hi = it.fields
-        if lo.sym() or hi.sym(): raise Unsupported("symbolic range iteration (prototype)")
+        if lo.sym() or hi.sym():
+            # the number of elements must be decided: fork over lengths 0..RANGE_MAX (longer: inconclusive)
+            if M.branch(M.binop('Ge', lo, hi)): return []
+            for n in range(1, RANGE_MAX + 1):
+                top = M.binop('Add', lo, Int(lo.w, lo.s, n))
+                if M.branch(band(M.binop('Eq', top, hi), M.binop('Lt', lo, top))):
+                    return [M.binop('Add', lo, Int(lo.w, lo.s, i)) if i else lo for i in range(n)]
+            raise Unsupported("symbolic range longer than %d elements" % RANGE_MAX)
+        if hi.v - lo.v > 100000: raise Unsupported("range of %d elements" % (hi.v - lo.v))
         return [Int(lo.w, lo.s, x) for x in range(lo.v, hi.v)]
     return _old_iter_items(M, it)
 @model_re(r'^Option::unwrap_or_default$')
